@@ -105,7 +105,7 @@ class SimEndpoint(object):
         self.outage = None                  # kind while the endpoint is down
         self.max_attempts = None            # step cap (termination oracle)
         self._cache = {}
-        self.delivered_po = []              # (subject, p, o-json) rows answered to p-o queries, in order
+        self.delivered_po = []              # (subject, [(p, o-json)...]) per answered p-o query, in order
         self.answered_queries = []          # (qkind, text) answered, in order
 
     def add_fault(self, f):
@@ -133,14 +133,33 @@ class SimEndpoint(object):
             d["datatype"] = str(t.datatype)
         return d
 
+    def _evaluate(self, body):
+        """rows of a query.  The four fixed query shapes sheXer emits are answered by
+        direct triple-pattern lookup; anything else (selectors) by rdflib's evaluator."""
+        g = self.graph
+        U = rdflib.URIRef
+        m = _RE_PO.match(body)
+        if m:
+            return ["p", "o"], [(p, o) for (_, p, o) in g.triples((U(m.group(1)), None, None))]
+        m = _RE_SP.match(body)
+        if m:
+            return ["s", "p"], [(s, p) for (s, p, _) in g.triples((None, None, U(m.group(1))))]
+        m = _RE_CL.match(body)
+        if m:
+            return ["o"], [(o,) for (_, _, o) in g.triples((U(m.group(1)), U(m.group(2)), None))]
+        m = _RE_CLS.match(body)
+        if m:
+            return ["o"], [(o,) for o in {o for (_, _, o) in g.triples((None, U(m.group(1)), None))}]
+        res = g.query(body)
+        return [str(v) for v in res.vars], [tuple(r) for r in res]
+
     def answer(self, q):
         if q in self._cache:
             return self._cache[q]
         m = _RE_LIMIT.search(q)
         body = q[:m.start()] if m else q
-        res = self.graph.query(body)
-        vars_ = [str(v) for v in res.vars]
-        rows = [{v: self._term(r[i]) for i, v in enumerate(vars_) if r[i] is not None} for r in res]
+        vars_, raw = self._evaluate(body)
+        rows = [{v: self._term(r[i]) for i, v in enumerate(vars_) if r[i] is not None} for r in raw]
         rows.sort(key=lambda r: json.dumps(r, sort_keys=True))
         if not self.canonical_rows:
             random.Random("%s|%s" % (self.row_seed, q)).shuffle(rows)
@@ -200,8 +219,7 @@ class SimEndpoint(object):
         self.answered_queries.append((qk, q))
         if qk == "po":
             s = _RE_PO.match(q).group(1)
-            for row in out["results"]["bindings"]:
-                self.delivered_po.append((s, row["p"]["value"], row["o"]))
+            self.delivered_po.append((s, [(row["p"]["value"], row["o"]) for row in out["results"]["bindings"]]))
         sim.log.add("query", qk, "ok", _abbr(q), len(out["results"]["bindings"]))
         return _FakeResult(out)
 
